@@ -32,7 +32,7 @@ class WBMemSlave(Module):
     """Memory-backed Wishbone slave whose ack is `cyc & stb & go`; `go` is driven by the bench (0 latency
     possible).  While not acking it drives a recognisable garbage word on dat_r.  err_on: ack+err."""
 
-    def __init__(self, bus, depth, init_words=None):
+    def __init__(self, bus, depth, init_words=None, min_latency1=False):
         dw = len(bus.dat_w)
         self.go = Signal()
         self.err = Signal()
@@ -44,8 +44,12 @@ class WBMemSlave(Module):
         self.specials += self.mem, rp, wp
         abits = max(1, (depth - 1).bit_length())
         ack = Signal()
+        pend = Signal(reset=0 if min_latency1 else 1)
+        if min_latency1:
+            # never answer in the first cycle of a request (what a registered decoder requires)
+            self.sync += pend.eq(bus.cyc & bus.stb & ~ack)
         self.comb += [
-            ack.eq(bus.cyc & bus.stb & self.go),
+            ack.eq(bus.cyc & bus.stb & self.go & pend),
             bus.ack.eq(ack),
             bus.err.eq(ack & self.err),
             rp.adr.eq(bus.adr[:abits]),
@@ -137,7 +141,8 @@ class WBMaster:
                 self.waiting = 0
             else:
                 self.waiting += 1
-                if self.max_wait is not None and self.waiting > self.max_wait:
+                lim = self.ops[self.i].get("abort", self.max_wait)
+                if lim is not None and self.waiting > lim:
                     # give up (used with deliberately silent slaves): withdraw the request
                     self.aborted.append((self.i, self.start, t - 1))
                     self.i += 1
